@@ -10,6 +10,20 @@ for l in open(os.path.join(VERIF, "properties.jsonl")):
 
 # id -> (category, technique, text, note, design_ref)
 CLAIMED = {
+    "C06": ("proof",
+            "Lean 4 theorems (streamed reader = parse-then-project; verify only on hash match; verified utxo = previous output; altered prev tx = SHA-256d collision) + correspondence",
+            "Props/C06.lean proves for every byte string/scope and every hash function: Transaction.read_vout (memory-saving mode) "
+            "returns exactly output idx and the hash of the witness-stripped encoding that the full parser yields, rejecting what it "
+            "rejects and out-of-range indices; InputScope.verify succeeds only if the outpoint txid equals the (reversed) double hash "
+            "of the supplied previous transaction in both modes and never without previous-transaction data; it changes nothing but "
+            "the verified flag; after success the utxo used for fee and sighash is the output of the verified previous transaction "
+            "(a contradicting witness_utxo makes verify fail); two previous transactions that differ after witness stripping have "
+            "different pre-images, so accepting an altered one is a SHA-256d collision. Each run compares parse+verify+utxo+fee of "
+            "embit with the model in all three parse modes on generated PSBTs with structured and byte-level alterations, and "
+            "evaluates the property directly against independently built previous transactions.",
+            "Trusted: Lean kernel + propext/Quot.sound/Classical.choice; harness generators; collision resistance of SHA-256d is an "
+            "assumption (named in the theorem), not proved.",
+            "§5 C06"),
     "C13": ("proof",
             "Lean 4 theorems (typing judgement, script template and length, all expression trees by structural induction) "
             "+ fact extraction of the class table + model/implementation/spec correspondence",
